@@ -352,7 +352,8 @@ def run(ctx):
     for i, (spec, prof) in enumerate(specs[:b["cf"]]):
         try:
             net = gen.build(spec)
-            for txt, meta in H.constflow_cases(ctx.rng, net):
+            for txt, meta in H.constflow_cases(ctx.rng, net, use_numba=(i % 3 == 2)):
+                ctx.count("constflow:numba=%s" % (i % 3 == 2))
                 meta["spec_i"] = i
                 lrecs.append(txt)
                 lmetas.append(meta)
@@ -369,6 +370,25 @@ def run(ctx):
     for gi in bad3[:3]:
         describe_bad(ctx, "ConstFlow.create_pit_node_entries", specs[lmetas[gi]["spec_i"]][0], lmetas[gi], "LOAD column differs")
         suspects.append(specs[lmetas[gi]["spec_i"]])
+    # ---------------------------------------------------------------- H-tie 3b: _sum_by_group itself
+    try:
+        gc = H.sumbygroup_cases(ctx.rng, 240 if ctx.quick else 4000)
+    except ValueError as e:
+        gc = []
+        ctx.broken("correspondence", "_sum_by_group exactness", str(e))
+    for txt, meta in gc:
+        ctx.case({"kind": "sum_by_group", **meta}, meta["regime"] != "dense", key="g:" + txt[:600])
+        ctx.count("sum_by_group:%s,numba=%s" % (meta["regime"], meta["numba"]))
+    n3b, mis3b, bad3b, ok3b = H.run_corr(ctx, "g", "C01.Model.sum_by_group == _sum_by_group (numpy / numba dense / numba sparse "
+                                                   "fallback; unsorted, repeated, sparse and high labels; Z)",
+                                         [t for t, _ in gc], chunk=300)
+    for gi in bad3b[:2]:
+        txt, meta = gc[gi]
+        # a concrete failing input of the property: the node load differs from the sum of the loads on the junction
+        ctx.violation({"clause": "load_aggregation", "fn": "_sum_by_group", "numba": meta["numba"], "regime": meta["regime"]},
+                      "_sum_by_group(use_numba=%s) does not return the per-label sums (what ConstFlow adds to LOAD): %s"
+                      % (meta["numba"], txt[:300]), {"case": txt, "meta": meta,
+                                                     "how": "pandapipes.pf.internals_toolbox._sum_by_group(use_numba, labels, values)"})
     # ---------------------------------------------------------------- H-tie 4: result extraction of node elements
     erecs, emetas, rrecs, rmetas = [], [], [], []
     for i, (spec, prof) in enumerate(specs[:b["cf"]]):
